@@ -49,7 +49,7 @@ CONFIG = dict(
          "session's counter), limit-exceeded inserts incl. of brand-new prefixes; plus structural mutations; distinct = distinct "
          "case line",
     expect_tokens=["limit", "(ctrs (", "(stats (", " 0 0)", "nochange", "(chs)", "(stale 0", "(llgr 0", "(state 0 0 0)",
-                   "(bad-case)"],
+                   "(bad-case)", "purge-hit", "restale-rebest", "id-ge-64"],
     trusted_base=["model Rbgp/Rib/Model.lean of table/src/lib.rs",
                   "harness/pt/src/rib.rs (shared with C02/C06): one AtomicU64 per (source, family) is handed to insert / remove "
                   "iff the source declares a limit; purges get the counter named by the case (or None, as the daemon does)"],
